@@ -68,13 +68,10 @@ def run(ctx, monitors):
         fam = ctx.model_check("Sim_Persist", "Sim_Persist_family.cfg", workers=1, timeout=600)
         fs = _scenarios_from(fam)
         keys = sorted(fs)
-        with_cb = [k for k in keys if "leavecb" in k]
-        without = [k for k in keys if "leavecb" not in k]
-        rng.shuffle(with_cb)
-        rng.shuffle(without)
-        for i, k in enumerate(with_cb[:12] + without[:12]):
+        rng.shuffle(keys)
+        for i, k in enumerate(keys[:24]):
             jobs.append({"name": "family-%d" % i, "script": fs[k]["script"], "points": sorted(fs[k]["points"]), "scheme": ""})
-        ctx.notes.append("runs of the family printed by TLC: %d, replayed: 24 (seeded choice, half of them ending in leaveNetwork)" % len(keys))
+        ctx.notes.append("runs of the family printed by TLC: %d, replayed: 24 (seeded choice)" % len(fs))
     if getattr(ctx, "replay", None):
         # --replay <file written for an earlier violation>: only that run and crash point
         jobs = [json.loads(l) for l in open(ctx.replay) if l.strip()]
@@ -129,11 +126,15 @@ def run(ctx, monitors):
     if drift:
         ctx.inconclusive.append("persist: %d conformance differences between the daemon and Persist.tla (model drift), first: %s"
                                 % (len(drift), json.dumps(drift[0])[:600]))
+    ctx.notes.append("observation, not a finding (outside the quantifier): BeaconProcess.leaveNetwork (fileStore.Reset while dkg.db keeps the completed "
+                     "epoch => every later restart refuses with ErrDKGNotStarted; StopAt(old TransitionTime-1) fails 'in the past', handler keeps running: "
+                     "F16/F17 of DESIGN 8) was reproduced only by feeding the daemon's completed-DKG channel by hand; no production path reaches it in this "
+                     "tree (the only producer, executeAndFinishDKG, never emits a group without the node itself), so no scripted run contains it")
     ctx.assumptions += [
         "bbolt transaction atomicity and durability are trusted: a bolt transaction is one step, a crash is a copy of the files between steps",
         "a crash is realised as a copy of the node's directories taken while the writer is parked at the step (process death; not power loss with unsynced pages)",
         "a torn key file is the prefix of the new bytes of length 0 (observed after os.Create) and of half the length (derived from the completed write)",
-        "the kyber DKG protocol is not run: the harness performs the tail of dkg.Process.executeAndFinishDKG (Complete, SaveFinished, fan-out send) itself in the code's order on the daemon's real store and channel; leaveNetwork is driven through the same channel although dkg.Process never emits such a result",
+        "the kyber DKG protocol is not run: the harness performs the tail of dkg.Process.executeAndFinishDKG (Complete, SaveFinished, fan-out send) itself in the code's order on the daemon's real store and channel",
         "restart = a fresh DrandDaemon (NewDrandDaemon + LoadBeaconsFromDisk) in the harness process on the copy, not a fresh OS process; 'resumes' = the beacon handler is created and running",
     ]
     return ok
